@@ -32,12 +32,12 @@ def esc(atoms, q):
     return "".join(out)
 
 
-def L(*atoms):
-    return {"s": esc(atoms, DQ), "q": DQ, "atoms": list(atoms)}
+def L(*atoms, q=DQ):
+    return {"s": esc(atoms, q), "q": q, "atoms": list(atoms)}
 
 
-def A(key, *atoms):
-    return [key, esc(atoms, DQ), DQ, list(atoms)]
+def A(key, *atoms, q=DQ):
+    return [key, esc(atoms, q), q, list(atoms)]
 
 
 def I(n):
